@@ -41,7 +41,7 @@ STUBS = [
 ]
 ASSUMPTIONS = [
     "valid packet for StringLineSerializer one-shot mode = text not ending with the newline sequence (deserialize strips trailing newlines by contract)",
-    "kernel truncation at max_datagram_size and the asyncio datagram endpoint internals are outside (the latter: see C10/C20 harness)",
+    "kernel truncation at max_datagram_size is outside; the asyncio DatagramEndpoint/Protocol pair is driven over a fake asyncio datagram transport (asyncio-endpoint shards)",
 ]
 BOUNDS = {"quick": "datagrams of <= 6 symbolic bytes, sequences of <= 4 datagrams", "thorough": "<= 8 bytes, <= 5 datagrams"}
 OUTSIDE = "real UDP sockets, datagram size limits, cbor/msgpack"
@@ -342,6 +342,80 @@ def corpus_exchange(name: str, order: list, inject: int, mode: str = "sync"):
     return scenario
 
 
+def asyncio_endpoint(n: int, K: int, prefix: list = ()):
+    """The real asyncio DatagramEndpoint + DatagramEndpointProtocol on the deterministic loop: datagrams arrive
+    (protocol.datagram_received) and pending recvfrom() tasks are cancelled in a solver-chosen order; every datagram must be
+    returned by exactly one successful recvfrom(), in arrival order (a cancelled receive must not swallow a later datagram)."""
+    import asyncio
+
+    from easynetwork.lowlevel.api_async.backend._asyncio.datagram.endpoint import DatagramEndpoint as AioDatagramEndpoint
+    from easynetwork.lowlevel.api_async.backend._asyncio.datagram.endpoint import DatagramEndpointProtocol
+
+    from .asyncenv import _FakeDatagramTransport, loop_context
+
+    def scenario(S):
+        with loop_context() as loop:
+            rq, eq = asyncio.Queue(), asyncio.Queue()
+            proto = DatagramEndpointProtocol(loop=loop, recv_queue=rq, exception_queue=eq)
+            tr = _FakeDatagramTransport()
+            proto.connection_made(tr)
+            ep = AioDatagramEndpoint(tr, proto, recv_queue=rq, exception_queue=eq)
+            st = {"sent": 0, "got": [], "task": None, "errors": [], "cancels": 0, "cancel_pending": 0}
+
+            async def recv_once():
+                data, addr = await ep.recvfrom()
+                st["got"].append(data)
+
+            def harvest():
+                t = st["task"]
+                if t is not None and t.done():
+                    st["task"] = None
+                    if not t.cancelled() and t.exception() is not None:
+                        st["errors"].append(repr(t.exception()))
+
+            def arrive():
+                if st["sent"] < n:
+                    proto.datagram_received(bytes([65 + st["sent"]]), ("peer", 1))
+                    st["sent"] += 1
+
+            for i in range(K):
+                harvest()
+                if st["task"] is None:
+                    st["task"] = loop.create_task(recv_once())
+                c = prefix[i] if i < len(prefix) else S.choice(3, f"ev{i}")
+                if c == 0:
+                    loop.step()
+                elif c == 1:
+                    arrive()
+                else:
+                    if st["cancels"] < 2 and not st["task"].done():
+                        st["cancels"] += 1
+                        st["cancel_pending"] += 1
+                        st["task"].cancel()
+                    else:
+                        loop.step()
+            while st["sent"] < n:
+                arrive()
+            for _ in range(8 * n + 20):
+                harvest()
+                if st["task"] is None:
+                    if len(st["got"]) >= n:
+                        break
+                    st["task"] = loop.create_task(recv_once())
+                loop.step()
+            harvest()
+            if st["task"] is not None:
+                st["task"].cancel()
+                loop.run_until_idle(10)
+            want = [bytes([65 + i]) for i in range(n)]
+            ok = st["got"] == want and not st["errors"]
+            tags = ("cancel-on-pending-receive",) if st["cancel_pending"] else ()
+            tr.close()
+            return Outcome(ok=ok, skeleton=(len(st["got"]), len(st["errors"])), tags=tags + ("multi-datagram",), detail={"received": st["got"], "expected": want, "errors": st["errors"]})
+
+    return scenario
+
+
 def shards(tier: str):
     out = []
     quick = tier == "quick"
@@ -360,6 +434,8 @@ def shards(tier: str):
         for i, plan in enumerate(plans):
             for mode in ("sync", "async"):
                 add(f"exchange/{kind}/plan{i}/{mode}", "exchange", dict(kind=kind, plan=plan, mode=mode), cost=3 ** sum(n for _, n in plan))
+    for pre in range(3):
+        out.append({"name": f"asyncio-endpoint/K{6 if quick else 8}/pre{pre}", "scenario": "props.c05:asyncio_endpoint", "params": dict(n=3, K=6 if quick else 8, prefix=[pre]), "budget": B, "cost": 200, "per_path_timeout": 30})
     for name in CORPUS:
         for mode in ("sync", "async"):
             add(f"corpus/{name}/{mode}", "corpus_exchange", dict(name=name, order=[0, 1, 2, 3], inject=6 if quick else 8, mode=mode), cost=100)
